@@ -191,6 +191,14 @@ impl Prop for C18Prop {
                 }
             }
         }
+        // boundary numbers of failing files (an exit status derived from a count)
+        if !via_dir && t.chance(1, 6) {
+            let want = *t.pick(&[256usize, 255, 257, 512, 128, 65536 / 64]);
+            let have = files.iter().filter(|f| f.kind != "good").count();
+            for j in 0..want.saturating_sub(have) {
+                files.push(FileSpec { name: format!("miss{j:04}.pas"), text: String::new(), enc: "utf8".into(), kind: "missing".into(), link: false });
+            }
+        }
         let scn = Scn {
             files,
             threads: *t.pick(&[1, 2, 3, 4, 8, 16, 32]),
